@@ -373,7 +373,43 @@ class IndexProperties(ColumnProperties):
     with_parsers = False
 
 
-CONTRACTS = [ToCheck, ToParser, FieldCtor, FieldRejectsUnknownCheck, ColumnProperties, IndexProperties]
+class ConvertExtras(Contract):
+    """_convert_extras_to_checks (docstring, GH#383): every Config attribute that is not a Config option names a Check
+    constructor; a tuple value is its positional arguments, a dict value its keyword arguments, `...` means no argument,
+    anything else is the only argument.  One check per entry, in declaration order."""
+
+    target = "pandera.api.dataframe.model:_convert_extras_to_checks"
+    raises = ()
+
+    def setup(self, I):
+        install_ctor_recorders(I)
+
+    def make_args(self):
+        ex = DictObj()
+        ex["in_range"] = (T.fresh_value(T.Int, "lo"), T.fresh_value(T.Int, "hi"))
+        ex["str_length"] = DictObj(min_value=T.fresh_value(T.Int, "len_min"))
+        ex["unique_values_eq"] = Ellipsis
+        ex["greater_than"] = T.fresh_value(T.Int, "bound")
+        ex["isin"] = ListObj([T.fresh_value(T.Any, "allowed0")])
+        ex.pre, ex.name = True, "extras"
+        return {"extras": ex}
+
+    def ensures(self, result, old, extras):
+        calls = cur().ghost.get("ctor_calls", [])
+        out = {"one_check_per_entry_in_order": len(calls) == len(extras) and len(result) == len(extras) and all(r is c[1] for r, c in zip(result, calls))
+               and [c[0] for c in calls] == ["Check." + k for k in extras]}
+        if not out["one_check_per_entry_in_order"]:
+            return out
+        by = {c[0][6:]: (c[2], c[3]) for c in calls}
+        out["tuple_is_positional_arguments"] = by["in_range"] == (extras["in_range"], {}) or (by["in_range"][0] == tuple(extras["in_range"]) and by["in_range"][1] == {})
+        out["dict_is_keyword_arguments"] = by["str_length"][0] == () and set(by["str_length"][1]) == {"min_value"} and by["str_length"][1]["min_value"] is extras["str_length"]["min_value"]
+        out["ellipsis_is_no_argument"] = by["unique_values_eq"] == ((), {})
+        out["other_value_is_the_only_argument"] = len(by["greater_than"][0]) == 1 and by["greater_than"][0][0] is extras["greater_than"] and by["greater_than"][1] == {} \
+            and len(by["isin"][0]) == 1 and by["isin"][0][0] is extras["isin"] and by["isin"][1] == {}
+        return out
+
+
+CONTRACTS = [ToCheck, ToParser, FieldCtor, FieldRejectsUnknownCheck, ColumnProperties, IndexProperties, ConvertExtras]
 
 
 # ---------------------------------------------------------------------------------------------------------
